@@ -176,6 +176,11 @@ def classic(rng):
         lambda: ir.binop('**', big, ir.num(rng.choice([0.5, 1.5]))), lambda: ir.binop('**', ir.num(1.5), big),
         lambda: ir.binop('%', ir.num(rng.choice([5, 5.5])), rng.choice([neg(0), ir.num(0)])),
         lambda: ir.unop('-', big), lambda: ir.binop('*', big, big),
+        # exponents at the far end of 'huge': overflowed to an infinity, or NaN (float ** inf is immediate; so is
+        # int ** inf: the int is converted to a float first)
+        lambda: ir.binop('**', rng.choice([neg(2), neg(0.5), neg(1), ir.num(2), ir.num(0), big, ir.var('gNegInf')]),
+                         rng.choice([inf_expr(), ir.unop('-', inf_expr()), nan_expr(), ir.var('gInf'), ir.var('gNegInf'),
+                                     ir.var('gNaN')])),
         # comparison operators over an int beyond the float range and a float (Python compares them exactly)
         lambda: ir.binop(rng.choice(['==', '!=', '<', '<=', '>', '>=']), rng.choice([big, ir.var('gHuge'), ir.unop('-', big)]),
                          ir.num(rng.choice([1, 0.5, 1e300]))),
@@ -191,6 +196,11 @@ def classic(rng):
     return rng.choice(table)()
 
 
+def _is_special_float_expr(r):
+    return r in (inf_expr(), nan_expr(), ir.unop('-', inf_expr())) or \
+        ('variable' in r and r['variable'] in ('gInf', 'gNegInf', 'gNaN'))
+
+
 def safe_pow(e):
     """Reject int ** huge-int shapes that make CPython compute for minutes: an exponent may only be
     a plain number literal of small magnitude."""
@@ -198,7 +208,7 @@ def safe_pow(e):
     if k == 'binary':
         if v['op'] == '**':
             r = v['right']
-            ok = ('number' in r and abs(r['number']) <= 1000) or \
+            ok = _is_special_float_expr(r) or ('number' in r and abs(r['number']) <= 1000) or \
                  ('unary' in r and 'number' in r['unary']['expr'] and abs(r['unary']['expr']['number']) <= 1000)
             if not ok:
                 return False
@@ -525,6 +535,32 @@ OPTION_SHAPES = [('globals-none', {'globals': None}), ('globals-absent', {'globa
                  ('systemPrefix-none', {'systemPrefix': None}), ('debug-none', {'debug': None})]
 
 
+NO_OPTION_EXPRS = ['sqrt(0 - 1)', 'len(5)', 'indexOf(null, "b")', 'round(1e+308 * 10)', 'fixed(1, 0 - 1)', 'slice("abc", 9)',
+                   'hostFn(1)', '1 + unknownFn(2)', 'parseInt("zz", 99)', 'date(1, 2)', 'rept("a", 0 - 1)', '1 / 0 + ln(0)',
+                   'if(len(5), 1, charCodeAt("a", 7))', 'max()', 'lower(5) + upper(null)']
+
+
+def run_no_options(seed, stats):
+    from bare_script import parse_expression, evaluate_expression, BareScriptRuntimeError
+    r = _random.Random(seed)
+
+    def host_fn(args, options):
+        raise KeyError('host function failed')
+    for text in r.sample(NO_OPTION_EXPRS, 4):
+        expr = parse_expression(text)
+        for how, call_ in (('no arguments', lambda e: evaluate_expression(e)),
+                           ('options None with locals', lambda e: evaluate_expression(e, None, {'hostFn': host_fn, 'x': 1.0})),
+                           ('options None no builtins', lambda e: evaluate_expression(e, None, {'hostFn': host_fn}, False))):
+            try:
+                call_(expr)
+            except BareScriptRuntimeError:
+                pass
+            except Exception as exc:  # pylint: disable=broad-except
+                return (type(exc).__name__, str(exc)[:200], text, how)
+    stats.probes['expressions_evaluated_without_an_options_object'] += 1
+    return None
+
+
 ODD_LOCATIONS = ['mem:lib.bare', 'data:x', 'c:lib.bare', 'lib.bare', '/abs/lib.bare', 'http://h/a/b.bare', 'http://h',
                  'dir/sub/inc.bare', 'a//b.bare', 'x/../../y.bare', '../up.bare', './here.bare', 'UP:lib.bare', 'q?x=1/2',
                  'sp ace/f.bare', 'é/𝄞.bare', 'mem:', '/', 'dir/', 'file:///p/q.bare']
@@ -677,6 +713,13 @@ def run_adversarial(plan, stats):
             stats.faults['option_shape:' + name] += 1
             dig.append(out.summary())
             check_escape_value(out, viols, 'options:' + name, producers_of(plan))
+        # evaluate_expression WITHOUT an options object (the README usage): failing calls still evaluate to null
+        if not viols and plan.get('seed', 0) % 4 == 2:
+            bad = run_no_options(plan.get('seed', 0), stats)
+            stats.c['evaluations'] += 1
+            if bad is not None:
+                viols.append(Violation(PROP, 'escape', f'host-exception-escapes:{bad[0]}:evaluate_expression-without-options',
+                                       {'exception': bad[0], 'message': bad[1], 'expression': bad[2], 'how': bad[3]}))
         # include statements over unusual but legal locations (a scheme without a slash, a bare name, an absolute
         # path, '..' segments, an empty or slash-less system prefix), two levels deep, served by a fetch function that
         # has every location: resolution runs outside the call wrapper, and nothing but the documented errors may
